@@ -31,7 +31,7 @@ def coq_stmt(s):
     if op == "input": return "SInput %d %s %d" % (s[1], COQ_IN[s[2]], s[3])
     if op == "const":
         v = s[2]
-        return "SConst %d (%s)" % (s[1], "PInt %s" % zlit(v[1]) if v[0] == "int" else "PFloat %s %s" % (zlit(v[1]), zlit(v[2])))
+        return "SConst %d (%s)" % (s[1], "LInt %s" % zlit(v[1]) if v[0] == "int" else "LFloat %s %s" % (zlit(v[1]), zlit(v[2])))
     if op == "constval": return "SConstVal %d %s" % (s[1], zlit(s[2]))
     if op == "un": return "SUn %d %s %d" % (s[1], COQ_UOP[s[2]], s[3])
     if op == "bin": return "SBin %d %s %d %d" % (s[1], COQ_BOP[s[2]], s[3], s[4])
@@ -51,24 +51,26 @@ def coq_prog(p): return "[" + "; ".join(coq_stmt(s) for s in p) + "]"
 
 
 def coq_cfg(c):
-    return "{| modulus := %d; bitlength := %d%%nat; resolution := %d; ign0 := %s |}" % (c["p"], c["n"], c["res"], "true" if c["ign"] else "false")
+    return "{| bitlength := %d%%nat; resolution := %d |}" % (c["n"], c["res"])
 
 
 def coq_case(case, dig):
-    return "(%s, %s, [%s], [%s])" % (coq_cfg(case["cfg"]), coq_prog(case["prog"]), "; ".join(zlit(i) for i in case["ins"]),
-                                    "; ".join(str(d) for d in dig))
+    return "(%d, %s, %s, [%s], %s, [%s])" % (case["cfg"]["p"], coq_cfg(case["cfg"]), coq_prog(case["prog"]),
+                                            "; ".join(zlit(i) for i in case["ins"]), "true" if case["cfg"]["ign"] else "false",
+                                            "; ".join(str(d) for d in dig))
 
 
-HDR = ("From Coq Require Import ZArith List.\nFrom PySnark.Model Require Import Util Lc Sym Gadgets Api Prog.\n"
+HDR = ("From Coq Require Import ZArith List.\nFrom PySnark.Model Require Import Util Lc Sym Gadgets Api Prog.\nFrom PySnark.Proofs Require Import Meta.\n"
        "Import ListNotations.\nOpen Scope Z_scope.\n")
 
 
 def cases_v(cases, digs):
     body = ";\n".join(coq_case(c, d) for c, d in zip(cases, digs))
-    return (HDR + "Definition cases : list (cfg * list stmt * list Z * list Z) := [\n" + body + "].\n"
-            "Definition cmp (x : cfg * list stmt * list Z * list Z) : Z :=\n"
-            "  let '(c, p, i, d) := x in\n"
-            "  (fix go (a b : list Z) (w : Z) : Z := match a, b with u :: a', v :: b' => (if u =? v then 0 else w) + go a' b' (2 * w) | [], [] => 0 | _, _ => 64 end) (digests c p i) d 1.\n"
+    return (HDR + "Definition cases : list (Z * cfg * list stmt * list Z * bool * list Z) := [\n" + body + "].\n"
+            "Definition cmp (x : Z * cfg * list stmt * list Z * bool * list Z) : Z :=\n"
+            "  let '(p0, c, pr, i, g, d) := x in\n"
+            "  (fix go (a b : list Z) (w : Z) : Z := match a, b with u :: a', v :: b' => (if u =? v then 0 else w) + go a' b' (2 * w) | [], [] => 0 | _, _ => 64 end) (digests (p:=p0) c pr i g) d 1\n"
+            "  + (if scoped_cmds 0 0 (gen_prog (p:=p0) c pr) then 0 else 32).\n"
             "Eval vm_compute in (map cmp cases).\n")
 
 
@@ -131,8 +133,8 @@ def run_model_compare(cases, recs, shard=None, timeout=1500):
 
 def model_trace(case, timeout=300):
     """Debug aid: the model's trace for one case, as Coq prints it."""
-    v = HDR + "Eval vm_compute in (let t := model_run %s %s [%s] in (kinds t, pubs (st t), privs (st t), cons t, outs t, raised t)).\n" % (
-        coq_cfg(case["cfg"]), coq_prog(case["prog"]), "; ".join(zlit(i) for i in case["ins"]))
+    v = HDR + "Eval vm_compute in (let t := model_run (p:=%d) %s %s [%s] %s in (kinds t, pubs (st t), privs (st t), cons t, outs t, raised t)).\n" % (
+        case["cfg"]["p"], coq_cfg(case["cfg"]), coq_prog(case["prog"]), "; ".join(zlit(i) for i in case["ins"]), "true" if case["cfg"]["ign"] else "false")
     ok, out = common.coq_eval(v, timeout=timeout)
     return out
 
